@@ -102,3 +102,56 @@ def lt_nanos(t: Any) -> Any:
 
 def inv_local_time(t: Any) -> Any:
     return And(isinst(t, "LocalTime"), lt_nanos(t) >= 0, lt_nanos(t) < NPD)
+
+
+INSTANT_MIN_NS = INSTANT_MIN_DAYS * NPD
+INSTANT_MAX_NS = (INSTANT_MAX_DAYS + 1) * NPD - 1
+
+
+def inst_in_range(n: Any) -> Any:
+    return And(n >= INSTANT_MIN_NS, n <= INSTANT_MAX_NS)
+
+
+def is_instant_of(r: Any, n: Any) -> Any:
+    return And(inv_instant_valid(r), inst_ns(r) == n)
+
+
+def is_before_min(i: Any, cls: str = "Instant") -> Any:
+    d = fld(i, f"_{cls.lstrip('_')}__duration")
+    return And(isinst(i, cls), d_days(d) == DUR_MIN_DAYS, d_nano(d) == 0)
+
+
+def is_after_max(i: Any, cls: str = "Instant") -> Any:
+    d = fld(i, f"_{cls.lstrip('_')}__duration")
+    return And(isinst(i, cls), d_days(d) == DUR_MAX_DAYS, d_nano(d) == 0)
+
+
+def inv_instant_any(i: Any) -> Any:
+    """Valid instant or one of the two sentinels."""
+    return And(inv_duration(inst_duration(i)), Or(inv_instant_valid(i), is_before_min(i), is_after_max(i)))
+
+
+def linst_ns(i: Any) -> Any:
+    return ns(linst_duration(i))
+
+
+def inv_linstant_valid(i: Any) -> Any:
+    d = linst_duration(i)
+    return And(isinst(i, "_LocalInstant"), inv_duration(d), d_days(d) >= INSTANT_MIN_DAYS, d_days(d) <= INSTANT_MAX_DAYS)
+
+
+def inv_linstant_any(i: Any) -> Any:
+    return And(inv_duration(linst_duration(i)), Or(inv_linstant_valid(i), is_before_min(i, "_LocalInstant"), is_after_max(i, "_LocalInstant")))
+
+
+def is_linstant_of(r: Any, n: Any) -> Any:
+    return And(inv_linstant_valid(r), linst_ns(r) == n)
+
+
+def floor_div(a: Any, b: int) -> Any:
+    return a // b
+
+
+def sign_agrees(r: Any, diff: Any) -> Any:
+    """sign(r) == sign(diff)"""
+    return And(Iff(r < 0, diff < 0), Iff(r == 0, diff == 0), Iff(r > 0, diff > 0))
